@@ -4,7 +4,8 @@
 From Coq Require Import List NArith ZArith Bool Lia Arith.
 From Vivid Require Import Actor.Core Actor.CoreRun Actor.SpecMail Actor.ProofsMailBase Actor.ProofsMail Actor.ProofsMailInv
   Actor.ProofsMailWf Actor.ProofsMailAcct Actor.ProofsMailReg Actor.ProofsMailMicro Actor.ProofsMailLife Actor.ProofsMailStep
-  Actor.ProofsMailTree Actor.ProofsMailMK Actor.ProofsMailKids Actor.ProofsMailCtx.
+  Actor.ProofsMailTree Actor.ProofsMailMK Actor.ProofsMailKids Actor.ProofsMailCtx Actor.ProofsMailMicro2 Actor.ProofsMailCache
+  Actor.ProofsMailHyg Actor.ProofsMailView.
 Import ListNotations.
 
 (** * a pending IRestartFinish belongs to a restart in progress *)
@@ -236,4 +237,76 @@ Lemma resolve_root s : RInv s -> RootC s -> fst (resolve s (RObj 0)) = MbRoot /\
 Proof.
   intros (Ra & _ & Rc & _) HC. destruct Ra as (x0 & Hg0 & _ & Hp0). split; [|reflexivity].
   unfold resolve. rewrite Hg0, (HC _ Hg0), Hp0, Rc. reflexivity.
+Qed.
+
+(** * the need flag *)
+Lemma need_app l1 l2 f : need_after (l1 ++ l2) f = need_after l2 (need_after l1 f).
+Proof. apply fold_left_app. Qed.
+Lemma need_mono l : forall f g, (f = true -> g = true) -> need_after l f = true -> need_after l g = true.
+Proof.
+  induction l as [|k l IH]; intros f g H; cbn [need_after fold_left]; [exact H|].
+  apply IH. destruct k; cbn [knext]; auto.
+Qed.
+Lemma need_others l f : Forall (fun k => k = KOther) l -> need_after l f = f.
+Proof. intros H. revert f. induction H as [|k l -> _ IH]; intros f; cbn [need_after fold_left knext]; [reflexivity|apply IH]. Qed.
+Lemma need_false_true l : need_after l false = true -> forall f, need_after l f = true.
+Proof. intros H f. apply (need_mono l false f); [discriminate|exact H]. Qed.
+
+(** * monotonicity of covers *)
+Lemma cmsg_mono s s' a b m : (forall q c, anc s q c -> anc s' q c) -> cmsg s a b m -> cmsg s' a b m.
+Proof. intros H. destruct m; cbn [cmsg]; auto. destruct poison; auto. destruct poison; auto. Qed.
+Lemma cinstr_mono s s' a self i : (forall q c, anc s q c -> anc s' q c) -> cinstr s a self i -> cinstr s' a self i.
+Proof.
+  intros H. destruct i; cbn [cinstr]; auto.
+  - destruct sys; [|auto]. intros (b & H1 & H2). exists b. split; [exact H1|eapply cmsg_mono; eauto].
+  - destruct sys; [|auto]. intros (b & H1 & H2). exists b. split; [exact H1|eapply cmsg_mono; eauto].
+  - destruct sys; [|auto]. intros (b & H1 & H2). exists b. split; [exact H1|eapply cmsg_mono; eauto].
+  - destruct poison; [auto|]. intros [H1 H2]. split; [apply H; exact H1|exact H2].
+Qed.
+
+(** * contexts in scope are registered; ancestors exist *)
+Lemma inscope_regd s a x : RInv s -> get s a = Some x -> a <> 0 -> inscope x -> regd s a x.
+Proof.
+  intros (_ & _ & _ & R1 & _) Hg Hne [_ Hs]. apply (R1 a x Hg Hne). unfold must_reg.
+  destruct Hs as [E|[_ [E|E]]]; [left; congruence|left; congruence|right; right; left; exact E].
+Qed.
+
+Lemma anc_get s q a x : RInv s -> get s a = Some x -> anc s q a -> exists xq, get s q = Some xq.
+Proof.
+  intros HR Hg Hanc. revert x Hg. induction Hanc as [|a x0 p Hg0 Hp0 Hanc IH]; intros x Hg; [eauto|].
+  destruct HR as (Ra & Rb & HR'). destruct (Nat.eq_dec a 0) as [->|Hne].
+  - destruct Ra as (xr & Hgr & Hpr & _). assert (x0 = xr) by congruence; subst. congruence.
+  - destruct (Rb a x0 Hg0 Hne) as [(p' & Hp' & Hlt) _]. assert (p' = p) by congruence; subst p'.
+    assert (Hl : p < length (actors s)) by (pose proof (nth_error_lt _ _ _ Hg0); lia).
+    destruct (get s p) as [xp|] eqn:Hgp; [|apply nth_error_None in Hgp; lia].
+    apply (IH xp eq_refl).
+Qed.
+
+(** the targets of the lower levels of a context chain are proper descendants of the reporting child *)
+Lemma chain_anc s a xa :
+  LI s -> RInv s -> KInv s -> get s a = Some xa -> a <> 0 -> regd s a xa ->
+  forall c1 b, lvl_ok s b c1 -> ctx_sub_ok s c1 -> In (RObj a) (chain_targets c1) -> anc s b a /\ b <> a.
+Proof.
+  intros HLI HR HK Hga Hne Hreg. fix IH 1. intros [ch1 ts1 [c2|]] b; cbn [lvl_ok ctx_sub_ok chain_targets].
+  - intros [Hts Hch] [(b1 & -> & Hl2) Hs2] Hin. apply in_app_or in Hin.
+    assert (Hdirect : In (RObj a) ts1 -> anc s b a /\ b <> a).
+    { intros Hi. destruct (Hts _ Hi) as (d & xd & E & Hd0 & Hgd & Hpd). inversion E; subst d. assert (xd = xa) by congruence; subst xd.
+      destruct Hpd as [Hp|(xc & Hxc & Hn)]; [|exfalso; assert (xc = xa) by congruence; subst; exact (Hn Hreg)].
+      split; [eapply anc_child; eauto|]. destruct HR as (_ & Rb & _). destruct (Rb a xa Hga Hne) as [(q & Hq & Hlt) _]. assert (q = b) by congruence. lia. }
+    destruct Hin as [Hi|Hi]; [exact (Hdirect Hi)|].
+    destruct (IH c2 b1 Hl2 Hs2 Hi) as [Ha1 Hn1].
+    (* b1 is a proper ancestor of a registered context, hence registered, hence still a child of b *)
+    destruct (anc_alive s b1 a xa HLI HR HK Hga Hne Hreg Ha1 Hn1) as (xb1 & c & xc & Hgb1 & _ & _ & Hrb1 & _).
+    assert (Hb1 : anc s b b1 /\ b1 <> 0).
+    { destruct Hch as [Hi1|(d & E & Hd0 & (xd & Hxd & Hn))].
+      - destruct (Hts _ Hi1) as (d & xd & E & Hd0 & Hgd & Hpd). inversion E; subst d. assert (xd = xb1) by congruence; subst xd.
+        split; [|exact Hd0]. destruct Hpd as [Hp|(xc' & Hxc' & Hn)]; [eapply anc_child; eauto|].
+        exfalso. assert (xc' = xb1) by congruence; subst. exact (Hn (Hrb1 Hd0)).
+      - inversion E; subst d. exfalso. assert (xd = xb1) by congruence; subst. exact (Hn (Hrb1 Hd0)). }
+    destruct Hb1 as [Hbb1 _]. split; [eapply anc_trans; eauto|].
+    pose proof (anc_le s b b1 HR Hbb1). pose proof (anc_le s b1 a HR Ha1). lia.
+  - intros [Hts Hch] _ Hin. rewrite app_nil_r in Hin.
+    destruct (Hts _ Hin) as (d & xd & E & Hd0 & Hgd & Hpd). inversion E; subst d. assert (xd = xa) by congruence; subst xd.
+    destruct Hpd as [Hp|(xc & Hxc & Hn)]; [|exfalso; assert (xc = xa) by congruence; subst; exact (Hn Hreg)].
+    split; [eapply anc_child; eauto|]. destruct HR as (_ & Rb & _). destruct (Rb a xa Hga Hne) as [(q & Hq & Hlt) _]. assert (q = b) by congruence. lia.
 Qed.
